@@ -269,8 +269,8 @@ inductive DVal
   | slice (xs : List DVal)
   | map (kvs : List (Str × DVal))
   | any (v : Val)
-  | plugin            -- a constructed component
-  | factory           -- a component factory
+  | plugin (conf : DVal)    -- a constructed component, and the config its constructor received (`.opaque`: not known)
+  | factory (conf : DVal)   -- a component factory, and the config every component it makes receives
   | special (repr : Str)
   | opaque
   deriving Repr
@@ -290,10 +290,14 @@ structure Flags where
   /-- `WholeNumberHook` is in the chain: a number with a fractional part given for an integer / duration field is an
   error (mapstructure alone truncates it) -/
   wholeNumbers : Bool
+  /-- `NumberRangeHook` is in the chain: a number the numeric field cannot hold (300 for an int8, 1e19 for an int64 /
+  a duration, 1e39 for a float32) is an error (mapstructure alone converts with Go's conversions, which wrap or
+  saturate) -/
+  numberRange : Bool
   deriving DecidableEq, Repr
 
 /-- the flags of the repository (Bridge/Config.lean proves they are what the source says) -/
-def repoFlags : Flags := ⟨true, false, true, true⟩
+def repoFlags : Flags := ⟨true, false, true, true, true⟩
 
 /-- process environment and property files (the LINES of every file, in file order) -/
 structure Env where
@@ -720,14 +724,38 @@ def zeroOf : Kind → DVal
   | .float _ => .float ⟨false, 0, 0⟩
   | .dur => .int 0
 
-/-- `confutil.cast` after the repair: signed kinds parse signed, unsigned kinds parse unsigned.
-`none`: "cannot cast", the resolved text stays a string. -/
+/-- `math.MaxFloat32` = (2 − 2⁻²³)·2¹²⁷ -/
+def maxFloat32 : Nat := 340282346638528859811704183484516925440
+
+/-- `|d| ≤ n` -/
+def Dec.absLeNat (d : Dec) (n : Nat) : Bool := decide (d.mant ≤ n * 10 ^ d.exp)
+
+/-- `|d| < n` -/
+def Dec.absLtNat (d : Dec) (n : Nat) : Bool := decide (d.mant < n * 10 ^ d.exp)
+
+/-- `strconv.ParseFloat(s, bits)` reports a range error (and the cast fails) when the decimal rounds to an infinity:
+from half an ulp above the largest finite value of the width on (the tie rounds to even, that is up) -/
+def floatLimit (bits : Nat) : Nat :=
+  -- 2^128 − 2^103 and 2^1024 − 2^970
+  if bits == 32 then 340282356779733661637539395458142568448
+  else 179769313486231580793728971405303415079934132710037826936173778980444968292764750946649017977587207096330286416692887910946555547851940402630657488671505820681908902000708383676273854845817711531764475730270069855571366959622842914819860834936475292719074168444365510704342711559699508093042880177904174497792
+
+/-- the float `castFloat` stores for the decimal `d`: `none` when `strconv.ParseFloat(_, bits)` reports a range error;
+a decimal between the largest finite float32 and the rounding limit rounds to that largest value (rounding to the
+width is otherwise not modelled: the decimal stands for the float nearest to it) -/
+def castFloat (bits : Nat) (d : Dec) : Option Dec :=
+  if !d.absLtNat (floatLimit bits) then none
+  else if bits == 32 && !d.absLeNat maxFloat32 then some ⟨d.neg, maxFloat32, 0⟩
+  else some d
+
+/-- `confutil.cast` after the repairs: signed kinds parse signed, unsigned kinds parse unsigned, floats parse at the
+width of the target.  `none`: "cannot cast", the resolved text stays a string. -/
 def castTo (k : Kind) (s : Str) : Option Val :=
   match k with
   | .bool => (parseBoolLit s).map Val.bool
   | .int bits => (parseIntLit s).bind fun i => if intFits bits i then some (Val.int i) else none
   | .uint bits => (parseUintLit s).bind fun n => if uintFits bits n then some (Val.int n) else none
-  | .float _ => (parseDecLit s).map Val.float
+  | .float bits => (parseDecLit s).bind fun d => (castFloat bits d).map Val.float
   | .str => some (Val.str s)
   | .dur => (parseIntLit s).bind fun i => if intFits 64 i then some (Val.int i) else none
 
@@ -740,19 +768,38 @@ def castToOld (k : Kind) (s : Str) : Option Val :=
       if intFits bits i then some (Val.int (i % (2 ^ bits : Nat))) else none
   | k => castTo k s
 
-/-- mapstructure's kind switch with `WeaklyTypedInput = false` -/
+/-- can a field of kind `k` hold the number `v`?  Integer kinds: the (truncated) number lies in the range of the width
+(a negative number for an unsigned kind counts as fitting here: the kind switch itself reports it); float32: the
+magnitude is at most `math.MaxFloat32`; everything else fits.  What `NumberRangeHook` checks. -/
+def fitsKind : Kind → Val → Bool
+  | .int bits, .int i => intFits bits i
+  | .int bits, .float d => intFits bits d.trunc
+  | .dur, .int i => intFits 64 i
+  | .dur, .float d => intFits 64 d.trunc
+  | .uint bits, .int i => decide (i < 0) || uintFits bits i.toNat
+  | .uint bits, .float d => (d.neg && !d.isZero) || uintFits bits d.trunc.toNat
+  | .float bits, .float d => bits != 32 || d.absLeNat maxFloat32
+  | _, _ => true
+
+/-- mapstructure's kind switch with `WeaklyTypedInput = false`.  A number the target cannot hold is converted by a
+plain Go conversion (`SetInt(int64(f))`, `SetInt` into a narrower field, `SetFloat` into a float32): accepted without
+an error, the stored value wrapped, saturated or implementation-specific — `.opaque` here (with `NumberRangeHook` in
+the chain such a number never arrives). -/
 def decodeKind (k : Kind) (cur : DVal) (v : Val) : R :=
   match k, v with
   | .bool, .bool b => { val := .bool b }
   | .str, .str s => { val := .str s }
-  | .int _, .int i => { val := .int i }
-  | .int _, .float d => { val := .int d.trunc }
-  | .dur, .int i => { val := .int i }
-  | .dur, .float d => { val := .int d.trunc }
-  | .uint _, .int i => if i < 0 then R.fail cur .type else { val := .uint i.toNat }
-  | .uint _, .float d => if d.neg && !d.isZero then R.fail cur .type else { val := .uint d.trunc.toNat }
+  | .int bits, .int i => { val := if intFits bits i then .int i else .opaque }
+  | .int bits, .float d => { val := if intFits bits d.trunc then .int d.trunc else .opaque }
+  | .dur, .int i => { val := if intFits 64 i then .int i else .opaque }
+  | .dur, .float d => { val := if intFits 64 d.trunc then .int d.trunc else .opaque }
+  | .uint bits, .int i =>
+    if i < 0 then R.fail cur .type else { val := if uintFits bits i.toNat then .uint i.toNat else .opaque }
+  | .uint bits, .float d =>
+    if d.neg && !d.isZero then R.fail cur .type
+    else { val := if uintFits bits d.trunc.toNat then .uint d.trunc.toNat else .opaque }
   | .float _, .int i => { val := .float (Dec.ofInt i) }
-  | .float _, .float d => { val := .float d }
+  | .float bits, .float d => { val := if bits != 32 || d.absLeNat maxFloat32 then .float d else .opaque }
   | _, _ => R.fail cur .type
 
 /-- a number with a fractional part -/
@@ -767,7 +814,8 @@ def intKind : Kind → Bool
   | .dur => true
   | _ => false
 
-/-- `VariableInjectHook` at a scalar target, then `WholeNumberHook`, the duration hook, then the kind switch.
+/-- `VariableInjectHook` at a scalar target, then `WholeNumberHook` and `NumberRangeHook`, the duration hook, then the
+kind switch (a value cast from a lone placeholder was parsed at the width of the target: it fits).
 `cast` selects the cast in use (repaired / pre-repair). -/
 def decodeScalarWith (cast : Kind → Str → Option Val) (fl : Flags) (env : Env) (k : Kind) (cur : DVal) (v : Val) : R :=
   match v with
@@ -800,6 +848,7 @@ def decodeScalarWith (cast : Kind → Str → Option Val) (fl : Flags) (env : En
     | .ok w => decodeKind k cur w
   | w =>
     if fl.wholeNumbers && intKind k && fractional w then R.fail cur .type
+    else if fl.numberRange && !fitsKind k w then R.fail cur .type
     else decodeKind k cur w
 
 def decodeScalar := decodeScalarWith castTo
@@ -828,6 +877,12 @@ def sinkNames : List Str := ["stdout".toList, "stderr".toList, "stdin".toList]
 def sinkMap (s : Str) : List (Str × Val) :=
   if sinkNames.contains s then [("type".toList, .str s)]
   else [("type".toList, .str "file".toList), ("path".toList, .str s)]
+
+/-- the config a constructed component / the components of a factory received -/
+def instConf : DVal → Option DVal
+  | .plugin c => some c
+  | .factory c => some c
+  | _ => none
 
 /-! ## struct fields -/
 
@@ -869,7 +924,7 @@ def keep (zero : Bool) : Schema → R
   | .slice _ d => { val := if zero then .nil else d }
   | .map _ d => { val := if zero then .nil else match d with | none => .nil | some kvs => .map kvs }
   | .any d => { val := if zero then .nil else d }
-  | .plugin pi _ => { val := if pi.dfltSet && !zero then (if pi.factory then .factory else .plugin) else .nil }
+  | .plugin pi _ => { val := if pi.dfltSet && !zero then (if pi.factory then .factory .opaque else .plugin .opaque) else .nil }
   | .special repr => { val := .special repr }
   | .opaque => { val := .opaque }
 
@@ -922,7 +977,7 @@ def decode (fl : Flags) (env : Env) : Schema → Val → R
     | .error e => R.fail d e
   | .any _, v => { val := .any v }
   | .plugin pi alts, v =>
-    let cur : DVal := if pi.dfltSet then (if pi.factory then .factory else .plugin) else .nil
+    let cur : DVal := if pi.dfltSet then (if pi.factory then .factory .opaque else .plugin .opaque) else .nil
     -- hooks in front of the plugin hooks: placeholders, sink string shortcut, schedule list shortcut
     let pre : Except ErrC Val :=
       match v with
@@ -945,7 +1000,9 @@ def decode (fl : Flags) (env : Env) : Schema → Val → R
           match decodeAlt fl env alts name (.map (dropType kvs)) with
           | none => R.fail cur .pluginname      -- alternative not in the (pruned) schema
           | some (lzy, r) =>
-            let made : DVal := if pi.factory then .factory else .plugin
+            -- core/plugin `New` / `NewFactory`: the registered constructor receives the block (without its `type` key)
+            -- decoded into a FRESH default config of the named plugin — at once, or at every call of the factory
+            let made : DVal := if pi.factory then .factory r.val else .plugin r.val
             let now := settle r
             if lzy then
               { val := made, later := if now.isEmpty then r.later else now }
